@@ -208,6 +208,15 @@ def rand_tree(rng, budget):
             return ("$",)
         return ("e",)
     k = rng.below(100)
+    if budget >= 5 and rng.chance(1, 5):
+        # a repeated group followed by something that overlaps with it
+        a = 1 + rng.below(min(3, budget - 3))
+        m, n = rng.choice(REPS_R)
+        head = ("rep", ("grp", rand_tree(rng, a)), m, n)
+        tail = rand_tree(rng, budget - 3 - a) if budget - 3 - a >= 1 else ("c", 0x61)
+        if rng.chance(1, 2):
+            tail = ("rep", ("grp", tail), 0, 1)
+        return ("cat", head, tail)
     if k < 35:
         a = 1 + rng.below(budget - 1)
         return ("cat", rand_tree(rng, a), rand_tree(rng, budget - 1 - a))
@@ -218,6 +227,37 @@ def rand_tree(rng, budget):
         m, n = rng.choice(REPS_R)
         return ("rep", rand_tree(rng, budget - 1), m, n)
     return ("grp", rand_tree(rng, budget - 1))
+
+
+def rep_group_tail_trees():
+    """grammar-directed family: a REPEATED GROUP followed by an optional / overlapping tail.  The
+    matcher must weigh `k+1 iterations, short tail` against `k iterations, longer tail`
+    (match_gend: one more repeat AND the continuation from the shorter point) — the case
+    `rep (group …)` that cmatch_refines_llmatch does not cover yet."""
+    A = [("c", 0x61), ("c", 0x62), (".",)]
+    bodies = list(A)
+    bodies += [("cat", x, y) for x in A for y in A]
+    bodies += [("alt", x, y) for x in A for y in A if x != y]
+    bodies += [("alt", x, ("cat", x, y)) for x in A for y in A]
+    bodies += [("alt", ("cat", x, y), x) for x in A for y in A]
+    bodies += [("cat", ("rep", ("grp", x), 1, 2), y) for x in A for y in A]          # nested one level
+    bodies += [("cat", ("rep", ("grp", x), 0, None), y) for x in A[:2] for y in A]
+    counts = [(0, None), (1, None), (0, 1), (1, 2), (2, 2), (0, 2), (2, None), (1, 3)]
+    tails = [None]
+    tails += [("rep", ("grp", ("cat", x, y)), 0, 1) for x in A for y in A]             # (xy)?
+    tails += [("cat", ("rep", x, 0, 1), y) for x in A for y in A]                      # x?y
+    tails += [("rep", x, 0, 2) for x in A]                                             # x{0,2}
+    tails += [("grp", ("alt", x, ("cat", x, y))) for x in A for y in A]                # (x|xy)
+    tails += [("grp", ("alt", ("cat", x, y), x)) for x in A for y in A]                # (xy|x)
+    tails += [("rep", ("grp", ("alt", x, ("cat", x, y))), 0, None) for x in A[:2] for y in A[:2]]   # (x|xy)*
+    tails += [("cat", ("rep", ("grp", ("cat", x, y)), 0, 1), x) for x in A[:2] for y in A[:2]]      # (xy)?x
+    out = []
+    for b in bodies:
+        for (m, n) in counts:
+            head = ("rep", ("grp", b), m, n)
+            for t in tails:
+                out.append(head if t is None else ("cat", head, t))
+    return out
 
 
 def rand_subject(rng, maxlen):
@@ -811,7 +851,9 @@ def run(ck):
         "bounded-exhaustive: every tree up to N nodes (quick 4, thorough 5) over leaves {a,b,\\n,.,[^a],[ab],^,$,()} and "
         "repetitions {*,+,?,{2},{1,2},{2,},{0}} rendered as ERE and (alternation-free) BRE, under the compile-flag sets, all "
         "subjects over {a,b,\\n} up to length L (quick 5; thorough 6 for trees up to 4 nodes, 3..5 for 5-node trees), the "
-        "exec-flag sets that can reach the pattern, nmatch in {0,1,nsub+2}; random trees up to 12 "
+        "exec-flag sets that can reach the pattern, nmatch in {0,1,nsub+2}; grammar-directed family rep-group-tail (a repeated "
+        "group with a 1-3 atom/alternative body over {a,b,.}, one level of nesting, followed by an optional/overlapping tail) x all "
+        "subjects over {a,b} up to length 6 (quick: a seed-rotated third of the family); random trees up to 12 "
         "nodes with bracket expressions/high bytes/escaped specials and subjects up to 40; byte mutations of rendered "
         "patterns and hand-made members of every regerror class; AT&T table.  A case is distinct = (cflags, pattern "
         "bytes); non-trivial = compiles and is executed on at least one subject")
@@ -930,6 +972,25 @@ def run(ck):
     rn.run_x(lines, "icase-slice")
     if enough():
         return
+
+    # ---- grammar-directed family: repeated group + optional/overlapping tail
+    fam = rep_group_tail_trees()
+    nfam = len(fam)
+    if ck.tier == "quick" and not intensify:
+        fam = [t for i, t in enumerate(fam) if (i + ck.seed) % 3 == 0]       # seed-rotated third
+    fsubs = subjects([0x61, 0x62], 6)
+    lines = []
+    for t in fam:
+        for ere in (True, False):
+            if not ere and has(t, "alt"):
+                continue
+            lines.append(xline(EXT if ere else 0, render(t, ere), [0, 1, "m"], [0], fsubs))
+    ck.cov["rep_group_tail"] = {"patterns_in_family": nfam, "trees_used": len(fam), "op_lines": len(lines),
+                                "subjects": len(fsubs)}
+    for ch in vf.chunks(lines, 16 * 400):
+        rn.run_x(ch, "rep-group-tail")
+        if enough():
+            return
 
     # ---- random trees
     nrand = ck.scale(1500, 25000) * (4 if intensify else 1)
